@@ -150,6 +150,7 @@ func (c *tcpClient) Emit(disc uint8, payload []byte) uint64 {
 	if !c.Enabled() {
 		return InvalidID
 	}
+	vtrace("emit.pre", 0, 0, 0)
 	c.seq.Lock()
 	defer c.seq.Unlock()
 
@@ -182,6 +183,7 @@ func (c *tcpClient) EmitLazy(disc uint8, builder func() []byte) uint64 {
 	if !c.Enabled() {
 		return InvalidID
 	}
+	vtrace("emit.pre", 0, 0, 0)
 	c.seq.Lock()
 	defer c.seq.Unlock()
 
@@ -218,6 +220,7 @@ func (c *tcpClient) EmitFollowup(disc uint8, parentID uint64, payload []byte) ui
 	full := make([]byte, 0, 8+len(payload))
 	full = append(full, EncodeU64(eventIDSeq(parentID))...)
 	full = append(full, payload...)
+	vtrace("fup.pre", parentID, 0, 0)
 	return c.emitFollowupAtomic(disc, parentID, full, nil)
 }
 
@@ -238,6 +241,7 @@ func (c *tcpClient) EmitFollowupLazy(disc uint8, parentID uint64, builder func()
 		out = append(out, EncodeU64(parentSeq)...)
 		return append(out, inner...)
 	}
+	vtrace("fup.pre", parentID, 0, 0)
 	return c.emitFollowupAtomic(disc, parentID, nil, wrapped)
 }
 
